@@ -4,8 +4,10 @@
    One iteration of the `while queued_packets or outstanding_packets or outstanding_callbacks` loop is
        fill the window -> invoke pending callbacks -> select -> receive loop -> timeout scan
    and consumes one environment *event*: the datagrams that arrived on the socket up to this select and the
-   value of the clock after it.  The clock only moves in select (every time.time() of an iteration before the
-   select reads the value the previous select left).  Loss = a datagram is never listed, duplication = it is
+   value of the clock after it.  The clock moves in select and while user code runs: while the command
+   iterable yields its next command (before TransmittedPacket reads the clock for the deadline) and inside
+   each callback (before the clock is read for the select timeout); the reads of the clock are modelled in
+   the order the code makes them.  Loss = a datagram is never listed, duplication = it is
    listed twice, delay / reordering = it is listed later.
 
    Return codes, the retryable set and the sequence mask come from Generated/GenSCP.v (dumped from the
@@ -19,8 +21,14 @@ Open Scope Z_scope.
 (* Data                                                                                               *)
 (* ------------------------------------------------------------------------------------------------ *)
 
-(* window_size (per burst), self.n_tries, self.default_timeout *)
-Record config := Cf { cf_window : Z; cf_tries : Z; cf_timeout : Z }.
+(* window_size (per burst), self.n_tries, self.default_timeout; and how long user code keeps the thread
+   (ticks of the clock, looked up by command identity, 0 when absent): [cf_iter] the time the iterable
+   parameters_and_callbacks takes to yield a command, [cf_cb] the time the command's callback runs *)
+Record config := Cf { cf_window : Z; cf_tries : Z; cf_timeout : Z;
+                      cf_iter : list (Z * Z); cf_cb : list (Z * Z) }.
+
+Definition dur (l : list (Z * Z)) (c : Z) : Z :=
+  match zassoc c l with Some d => d | None => 0 end.
 
 (* one scpcall: its identity (stands for all its fields and its callback) and its extra timeout *)
 Record cmd := Cmd { c_id : Z; c_extra : Z }.
@@ -116,14 +124,16 @@ Fixpoint fill (cf : config) (q : list cmd) (queued : bool) (k : conn) (out : lis
         | None => None
         | Some (s, s') =>
             let tmo := cf_timeout cf + c_extra c in
+            (* next(parameters_and_callbacks) took dur (cf_iter cf) c; then time.time() + timeout; then send *)
+            let now := k_now k + dur (cf_iter cf) (c_id c) in
             let e := {| e_seq := s; e_cmd := c_id c; e_tries := 1; e_timeout := tmo;
-                        e_deadline := k_now k + tmo |} in
-            let k' := {| k_seq := s'; k_ntx := k_ntx k + 1; k_now := k_now k; k_buf := k_buf k |} in
+                        e_deadline := now + tmo |} in
+            let k' := {| k_seq := s'; k_ntx := k_ntx k + 1; k_now := now; k_buf := k_buf k |} in
             match fill cf q' true k' (out ++ [e]) with
             | None => None
             | Some r => Some {| f_queue := f_queue r; f_queued := f_queued r; f_conn := f_conn r;
                                 f_out := f_out r;
-                                f_outputs := OSend (k_ntx k) (c_id c) s (k_now k) :: f_outputs r |}
+                                f_outputs := OSend (k_ntx k) (c_id c) s now :: f_outputs r |}
             end
         end
     end
@@ -135,6 +145,13 @@ Fixpoint fill (cf : config) (q : list cmd) (queued : bool) (k : conn) (out : lis
 
 Definition callback_outputs (cbs : list (Z * dgram)) : list output :=
   map (fun cd => OCallback (fst cd) (snd cd)) cbs.
+
+(* the time all pending callbacks take *)
+Fixpoint callbacks_time (cf : config) (cbs : list (Z * dgram)) : Z :=
+  match cbs with
+  | [] => 0
+  | cd :: cbs' => dur (cf_cb cf) (fst cd) + callbacks_time cf cbs'
+  end.
 
 Fixpoint min_deadline (e : entry) (out : list entry) : Z :=
   match out with
@@ -217,8 +234,10 @@ Definition pre (cf : config) (k : conn) (b : bstate) : option pre_result :=
   match fill cf (b_queue b) (b_queued b) k (b_out b) with
   | None => None
   | Some f =>
-      let tmo := select_timeout (k_now (f_conn f)) (f_out f) in
-      Some {| p_conn := f_conn f;
+      let k1 := {| k_seq := k_seq (f_conn f); k_ntx := k_ntx (f_conn f);
+                   k_now := k_now (f_conn f) + callbacks_time cf (b_cbs b); k_buf := k_buf (f_conn f) |} in
+      let tmo := select_timeout (k_now k1) (f_out f) in
+      Some {| p_conn := k1;
               p_state := {| b_queue := f_queue f; b_queued := f_queued f; b_out := f_out f; b_cbs := [] |};
               p_outputs := f_outputs f ++ callback_outputs (b_cbs b) ++ [OSelect tmo];
               p_select := tmo |}
